@@ -111,6 +111,40 @@ Fixpoint m_get (h : heap) (v : hval) (p : path) : heap * option hval :=
 Definition m_read (h : heap) (v : hval) (p : path) : heap * option hval :=
   m_get (clone_val h v) v p.
 
+(* the read of `(x[p] = d) f= e`: the container at all-but-the-last index is cloned, looked at and released (eval.rs clones
+   every intermediate); then the value at the key is cloned, or the default expression is evaluated *)
+Definition m_read_wd (h : heap) (v : hval) (p : path) (d : val) : heap * option hval :=
+  match split_last p with
+  | None => m_read h v p
+  | Some (pre, last) =>
+    match m_read h v pre with
+    | (h1, None) => (h1, None)
+    | (h1, Some c) =>
+      let present :=
+        match c with
+        | HRef l None =>
+          match get_cell h1 l with
+          | Some cl =>
+            match ckind cl with
+            | KDict => match key_of_pelem last with
+                       | Some k => match find_key k (citems cl) with Some _ => Some true | None => Some false end
+                       | None => None
+                       end
+            | _ => None
+            end
+          | None => None
+          end
+        | _ => None
+        end in
+      let h2 := drop_val h1 c in
+      match present with
+      | Some true => m_read h2 v p
+      | Some false => let '(h3, r) := alloc_val h2 d in (h3, Some r)
+      | None => (h2, None)
+      end
+    end
+  end.
+
 (* ------------------------------------------------------------------ set_index *)
 (* apply g to the items i, i+1, ..., i+cnt-1 of the (uniquely owned) cell l, stop at the first failure *)
 Fixpoint m_range (g : heap -> hval -> heap * hval * bool) (h : heap) (l : loc) (i cnt : nat) : heap * bool :=
@@ -866,6 +900,21 @@ Definition m_exec_s (st : mstate) (s : sstmt) : mstate * bool :=
               (mkst h4 (set_root rs1 x cur'), ok)
             end
           end
+        end
+      end
+    end
+  | SOpDef x p d f e =>
+    match nth_error rs x with
+    | None => (st, false)
+    | Some cur =>
+      match m_read_wd h cur p d with
+      | (h1, None) => (mkst h1 rs, false)
+      | (h1, Some old) =>
+        match m_eval rs h1 e with
+        | (h2, None) => (mkst (drop_val h2 old) rs, false)
+        | (h2, Some w) =>
+          let '(h3, cur', ok) := m_opassign p f h2 cur old w in
+          (mkst h3 (set_root rs x cur'), ok)
         end
       end
     end
